@@ -29,7 +29,7 @@ from attr import setters
 import common
 
 ID = "C15"
-TABLES = ["attrsKw", "defineKw"]
+TABLES = ["attrsKw", "defineKw", "fn_define_wrap"]
 PARALLEL = True
 BUDGET_S = {"quick": 36, "thorough": 380}
 EXHAUSTIVE = {"quick": False, "thorough": False}
